@@ -67,6 +67,17 @@ CHECKS.update({
         note="trusted: token alpha of the wire (independent unfolding), snapshot function, TLC. Four hash seeds.", design="5 C10"),
 })
 
+CHECKS.update({
+    "C03": dict(engine="ValueCodecs",
+        technique="TLA+ grammar + denotation of the RFC 3.3 value types with Impl mirrors (vDuration, vUTCOffset, fixed-width date/time, vDDDTypes dispatch) model-checked over value families; admissible-text vectors replayed into the real decoders/classifier; random values of all 16 types validated by TLC trace spec",
+        text="TLC proves for each value family that the mirror encoder's text is in the grammar and denotes the value, that every admissible RFC text (weeks form, explicit zero parts, leading +, optional seconds, Z) denotes it, and that the five date/time grammars are disjoint and agree with the vDDDTypes dispatch; the real encoders/decoders are compared with the vectors and every divergence, plus random values over the full Python domains (dates 0001-9999, all seconds, offsets, big integers, floats, base64 payloads, weekdays, months), is judged by Trace_ValueCodecs.",
+        note="trusted: InG_T/Den_T in spec/ValueCodecs.tla, gamma/alpha per type in vf/props/c03.py, float equality via float.hex() in Python, TLC.", design="5 C03"),
+    "C19": dict(engine="Recur",
+        technique="TLA+ spec of RECUR text (grammar, FreqFirst, RefParse) with the vRecur encoder mirror model-checked over FREQ x part subsets in every insertion order; rules replayed through vRecur; permuted texts decoded; occurrence sequences compared through dateutil on both sides; TLC trace validation",
+        text="TLC enumerates FREQ x all subsets of <=2/3 parts from 33 representative part instances in all insertion orders and proves grammar membership, FREQ-first, RefParse(text) = supplied parts, re-encoding stability and insertion-order independence for the pinned encoder mirror; each rule is built with key-case and scalar/list variants and compared; permuted and trailing-';' texts and random many-valued rules are judged by Trace_Recur, including equality of the first 12 occurrences from the text and from the supplied parts.",
+        note="trusted: RefParse/InG_Recur, alpha of parsed rules and the independent kwargs mapping in vf/props/c19.py, dateutil as the 'standard expander', TLC.", design="5 C19"),
+})
+
 NOT_YET = "not yet built in this round (specification and binding under construction; see DESIGN.md section 10)"
 
 
